@@ -11,6 +11,7 @@ says so.  Helper lemmas live in `LA/Lemmas/*.lean`.
 -/
 import LA.Lemmas.Ctr
 import LA.Lemmas.ZipCrypt
+import LA.Lemmas.Passphrase
 set_option linter.unusedSimpArgs false
 namespace LA.C20
 
@@ -185,5 +186,110 @@ theorem trad_entry_roundtrip (zcrc : UInt32 → UInt8 → UInt32) (pw rnd11 : Li
   ⟨_, (trad_header_check zcrc pw rnd11 chk).1, (trad_roundtrip zcrc _ payload cipherChunks hcut).1⟩
 
 end zipcrypt
+
+/-! ## 3. The passphrase list (`archive_read_add_passphrase.c`) and the retry loops -/
+section passphrase
+open LA.Passphrase
+
+/-- The pointer manipulations of `__archive_read_next_passphrase` are sound in every
+reachable state: the invariant `candidate ≤ number of nodes` holds initially, is kept
+by every API operation, and under it `next` never rotates a list that would lose
+its `last` pointer and never dereferences `first == NULL`. -/
+theorem passphrase_list_sound :
+    Passphrase.Inv {} ∧
+    (∀ s p, Passphrase.Inv s → Passphrase.Inv (add s p).1) ∧
+    (∀ s cb, Passphrase.Inv s → Passphrase.Inv (setCallback s cb)) ∧
+    (∀ s, Passphrase.Inv (reset s)) ∧
+    (∀ s, Passphrase.Inv s → ∃ s' p, next s = .ret s' p ∧ Passphrase.Inv s') :=
+  ⟨by simp [Passphrase.Inv], add_inv, fun _ _ h => h, reset_inv, next_inv⟩
+
+/-- `passphrase_iteration` (1): after a reset, successive `next` calls yield every listed
+candidate exactly once, in list order, and then the client callback's answers in
+order (NULL for ever when there is no callback) — for every list, every callback
+and every number of further calls. -/
+theorem passphrase_iteration (s : St) (j : Nat) :
+    ∃ s', nexts (reset s) (s.list.length + j) =
+      some (s', s.list.map some ++ (List.range j).map (answer s)) :=
+  let ⟨s', h, _⟩ := iteration s j; ⟨s', h⟩
+
+/-- `passphrase_iteration` (2): when the consumer stops at candidate `k` (it matched), that
+passphrase is at the head of the list afterwards (the list is rotated by `k`), so
+the next entry tries it first. -/
+theorem passphrase_stop_at_head (s : St) (k : Nat) (hk : k < s.list.length) :
+    ∃ s', nexts (reset s) (k + 1) = some (s', (s.list.take (k + 1)).map some) ∧
+      s'.list = s.list.drop k ++ s.list.take k ∧ s'.list.head? = some s.list[k] := by
+  refine ⟨_, list_phase s.list k hk (reset s) rfl (by simp [reset]), rfl, ?_⟩
+  exact rotl_head s.list k hk
+
+/-- `passphrase_iteration` (3): after a full miss the list is back in its original order
+(before the callback's answer, if any, is put in front). -/
+theorem passphrase_order_restored (s : St) :
+    ∃ s' last, nexts (reset s) (s.list.length + 1) = some (s', s.list.map some ++ [last]) ∧
+      (s'.list = s.list ∨ ∃ p, last = some p ∧ s'.list = p :: s.list) := by
+  refine ⟨_, _, full_miss s.list (reset s) rfl (by simp [reset]), ?_⟩
+  unfold askCallback
+  cases hcb : (reset s).cb with
+  | none => left; simp [hcb]
+  | some f =>
+    simp only [hcb]
+    cases f (reset s).calls with
+    | none => left; rfl
+    | some pw => right; exact ⟨pw, rfl, rfl⟩
+
+/-- non-vacuity: three candidates and a callback -/
+example : (nexts (reset { list := [[1], [2], [3]], cb := some fun i => some [10 + i.toUInt8] }) 5).map
+      (fun r => (r.1.list, r.1.candidate, r.1.calls, r.2)) =
+    some ([[11], [1], [2], [3], [10]], 1, 2, [some [1], some [2], some [3], some [10], some [11]]) := by
+  simp [nexts, next, reset, rotate, rot1, askCallback]
+
+/-- `wrong_passphrase_rejected`: if no passphrase that can come up (listed or answered by
+the callback) derives a matching verification value, both retry loops end with
+ARCHIVE_FAILED and no decryption context — for every list, callback and cap. -/
+theorem wrong_passphrase_rejected (cap : Nat) (m : P → Bool) (s : St) (hw : AllWrong m s) :
+    ∃ s' t w, retryLoop cap m (reset s) 0 = .failed s' t w :=
+  retryLoop_wrong cap m (reset s) 0 (reset_inv s) hw
+
+example : AllWrong (fun p => p == [9]) { list := [[1], [2]], cb := some fun _ => some [3] } := by
+  constructor
+  · intro p hp; simp at hp; rcases hp with rfl | rfl <;> decide
+  · intro f hf i p hp
+    simp at hf; subst hf; simp at hp; subst hp; decide
+
+/-- `retry_loop_bounded`: the loop asks for at most `cap + 2` passphrases (cap = 10000 in
+both `init_*_decryption` functions), whatever the callback keeps answering. -/
+theorem retry_loop_bounded (cap : Nat) (m : P → Bool) (s : St) :
+    (retryLoop cap m s 0).tries ≤ cap + 2 :=
+  retryLoop_tries cap m s 0 (by omega)
+
+/-- …and with the extracted caps. -/
+theorem retry_loop_bounded_zip (m : P → Bool) (s : St) :
+    (retryLoop LA.Gen.Crypt.retryCapTrad m s 0).tries ≤ 10002 ∧
+    (retryLoop LA.Gen.Crypt.retryCapAes m s 0).tries ≤ 10002 :=
+  ⟨retry_loop_bounded _ m s, retry_loop_bounded _ m s⟩
+
+/-- The right passphrase is found: if candidate `k` of the list is the first one that
+matches (and `k` is within the cap), the loop stops there after `k+1` tries and
+leaves it at the head of the list. -/
+theorem right_passphrase_found (cap : Nat) (m : P → Bool) (s : St) (k : Nat)
+    (hk : k < s.list.length) (hm : m s.list[k] = true)
+    (hbefore : ∀ i (h : i < k), m (s.list[i]'(by omega)) = false) (hcap : k ≤ cap + 1) :
+    ∃ s', retryLoop cap m (reset s) 0 = .found s' s.list[k] (k + 1) ∧
+      s'.list.head? = some s.list[k] := by
+  obtain ⟨s', hn, _, hh⟩ := passphrase_stop_at_head s k hk
+  refine ⟨s', ?_, hh⟩
+  have := retryLoop_found cap m k (reset s) s' 0 (s.list.take k) s.list[k]
+    (by rw [hn, List.take_succ_eq_append_getElem hk]) (by simp [List.length_take]; omega)
+    (by
+      intro p hp
+      obtain ⟨i, hi, rfl⟩ := List.getElem_of_mem hp
+      simp only [List.length_take] at hi
+      rw [List.getElem_take]
+      exact hbefore i (by omega))
+    hm (by omega)
+  simpa using this
+
+example : ([[1], [2], [3]] : List P)[1] = [2] := rfl
+
+end passphrase
 
 end LA.C20
